@@ -226,6 +226,22 @@ theorem compressed_no_newline (q : WQuirks) (items : List Node)
   simp only [noNl, List.all_eq_true] at h2
   simpa using h2 x hx2
 
+/-- Clause 4 as stated — "outside custom-property values": whatever the custom-property values
+contain (line breaks included, `nodesNoNlX` asks nothing of them), the output with those values
+taken out (`blankNode`: the same tree, every custom-property value empty) has no line break
+before the final one. -/
+theorem compressed_no_newline_outside_custom (q : WQuirks) (items : List Node)
+    (h : nodesNoNlX q (Nodes.ofList (hoistImports items)) = true) :
+    ∀ x ∈ (intoBuffer q .compressed (items.map blankNode)).dropLast, x ≠ 10 := by
+  apply compressed_no_newline
+  rw [hoist_map_blank, ofList_map_blank, nodesNoNl_blank]
+  exact h
+
+/-- a custom-property value with a line break meets the hypothesis -/
+example : nodesNoNlX WQuirks.asis (Nodes.ofList (hoistImports
+    [.rule (some ⟨[97], [97]⟩) (.cons (.custom [45, 45, 120] [32, 123, 97, 10, 32, 98, 125] false) .nil)]))
+    = true := by decide
+
 /-- Full statement for the specification model: comment text and at-rule arguments need no
 hypothesis (their line breaks are replaced by spaces in compressed style). -/
 theorem spec_compressed_no_newline (items : List Node)
